@@ -317,12 +317,12 @@ def install_signal_handlers():
             pass
 
 
-def run_worker(prop, flv, binp, seed, tier, a, b, workdir, timeout_idle, extra_args=()):
+def run_worker(prop, flv, binp, seed, tier, a, b, workdir, timeout_idle, extra_args=(), wrap=()):
     """run cases [a,b); returns dict(events=[...], crashed_case=None|k, rc, stderr)"""
     os.makedirs(workdir, exist_ok=True)
     outp = os.path.join(workdir, 'out.%s.%d.%d.jsonl' % (flv, a, b))
     errp = outp + '.err'
-    cmd = [binp, '--prop', prop, '--seed', str(seed), '--from', str(a), '--to', str(b), '--tier', tier, '--tmpdir', workdir] + list(extra_args)
+    cmd = list(wrap) + [binp, '--prop', prop, '--seed', str(seed), '--from', str(a), '--to', str(b), '--tier', tier, '--tmpdir', workdir] + list(extra_args)
     env = san_env(flv, workdir)
     with open(outp, 'wb') as fo, open(errp, 'wb') as fe:
         p = subprocess.Popen(cmd, stdout=fo, stderr=fe, env=env, cwd=workdir, preexec_fn=_pdeathsig)
@@ -471,11 +471,20 @@ def process_chunk(prop, st, binp, asan_bin, seed, tier, a, b, workdir, agg, lock
         extra += ['--sub', st['sub']]
     for k_, v_ in st.get('args', {}).items():
         extra += ['--' + k_, str(v_)]
+    wrap = ()
+    if st.get('memcheck'):
+        # valgrind memcheck on the non-sanitized build: uninitialised reads (which ASan cannot see) and a second opinion on invalid accesses
+        wrap = memcheck_wrap(workdir)
+        idle *= 30
     cur = a
     guard = 0
     while cur < b and guard < 50:
         guard += 1
-        res = run_worker(prop, st['flavour'], binp, seed, tier, cur, b, workdir, idle, extra)
+        res = run_worker(prop, st['flavour'], binp, seed, tier, cur, b, workdir, idle, extra, wrap)
+        if wrap:
+            with lock:
+                agg['counters']['memcheck.processes'] = agg['counters'].get('memcheck.processes', 0) + 1
+                agg['counters']['memcheck.cases_completed'] = agg['counters'].get('memcheck.cases_completed', 0) + max(0, res['done_upto'] - cur)
         with lock:
             for ev in res['events']:
                 t = ev.get('ev')
@@ -500,7 +509,7 @@ def process_chunk(prop, st, binp, asan_bin, seed, tier, a, b, workdir, agg, lock
                     res['rc'], st['name'], cur, b, res['stderr'][-1500:]))
             break
         # confirm in a fresh process
-        conf = run_worker(prop, st['flavour'], binp, seed, tier, k, k + 1, workdir, idle, extra)
+        conf = run_worker(prop, st['flavour'], binp, seed, tier, k, k + 1, workdir, idle, extra, wrap)
         reproduced = conf['crashed_case'] is not None and conf.get('crash_in_case')
         use = conf if reproduced else res
         hang = use['killed']
@@ -542,6 +551,56 @@ def process_chunk(prop, st, binp, asan_bin, seed, tier, a, b, workdir, agg, lock
                 agg['viols'].append(dict(ev='viol', case=k, key='crash:' + key, detail='worker died (rc=%s) in case %d [%s]; reproduced=%s' % (
                     use['rc'], k, desc, reproduced), _stage=st, stderr=errtxt[-6000:]))
         cur = k + 1
+
+
+def memcheck_wrap(workdir):
+    os.makedirs(workdir, exist_ok=True)
+    return ['valgrind', '-q', '--error-exitcode=0', '--track-origins=yes', '--num-callers=16', '--error-limit=no',
+            '--log-file=' + os.path.join(workdir, 'vg.%p.log')]
+
+
+_SRC_BASENAMES = None
+
+
+def memcheck_reports(workdir):
+    """parse valgrind memcheck logs -> (list of (key, text) attributed to soplex frames, number of unattributed reports)"""
+    global _SRC_BASENAMES
+    if _SRC_BASENAMES is None:
+        _SRC_BASENAMES = set(os.path.basename(p) for p in repo_src_files())
+    KINDS = [('Conditional jump or move depends on uninitialised', 'uninit-branch'), ('Use of uninitialised value', 'uninit-use'),
+             ('Syscall param', 'uninit-syscall'), ('Invalid read', 'invalid-read'), ('Invalid write', 'invalid-write'),
+             ('Invalid free', 'invalid-free'), ('Mismatched free', 'mismatched-free'), ('Source and destination overlap', 'overlap'),
+             ('Argument', 'fishy-argument')]
+    out, unattributed = [], 0
+    for p in glob.glob(os.path.join(workdir, 'vg.*.log')):
+        try:
+            txt = open(p, errors='replace').read()
+        except OSError:
+            continue
+        txt = re.sub(r'^==\d+== ?', '', txt, flags=re.M)
+        for blk in re.split(r'\n\s*\n', txt):
+            kind = None
+            for pat, kd in KINDS:
+                if blk.lstrip().startswith(pat):
+                    kind = kd
+                    break
+            if not kind:
+                continue
+            main = blk.split('Uninitialised value was created')[0].split(' Address 0x')[0]
+            frames = []
+            for m in re.finditer(r'(?:at|by) 0x[0-9A-Fa-f]+: (.+?) \(([^()]*?)(?::(\d+))?\)\s*$', main, flags=re.M):
+                fn, fil = m.group(1), m.group(2)
+                if fil in _SRC_BASENAMES or fn.startswith('soplex::') or fn.startswith('SoPlex_'):
+                    f_ = clean_fn(fn)
+                    if f_ and f_ not in frames:
+                        frames.append(f_)
+                if len(frames) >= 2:
+                    break
+            if not frames:
+                unattributed += 1
+                continue
+            out.append(('memcheck:%s:%s' % (kind, '|'.join(frames)), blk[:5000]))
+    return out, unattributed
 
 
 def tsan_reports(workdir):
@@ -632,8 +691,9 @@ def run_check(prop, opts):
         if st.get('single_process'):
             nchunks = 1
         step = (n + nchunks - 1) // nchunks
+        off = int(st.get('offset', 0))       # lets a stage (e.g. memcheck) look at cases the other stages of the check do not run
         for a in range(0, n, step):
-            jobs.append((si, st, binp, asan_bin, a, min(n, a + step)))
+            jobs.append((si, st, binp, asan_bin, off + a, off + min(n, a + step)))
         stage_info.append(dict(name=st['name'], harness=st['harness'], flavour=st['flavour'], cases=n, sub=st.get('sub', '')))
     # interleave stages so slow flavours start early
     jobs.sort(key=lambda j: (-FLAVOURS[j[1]['flavour']].get('slow', 1), j[4]))
@@ -665,6 +725,17 @@ def run_check(prop, opts):
                                          _stage=st))
             agg['counters']['tsan.reports'] = agg['counters'].get('tsan.reports', 0) + sum(len(v) for v in seen.values())
             agg['counters']['tsan.distinct_reports'] = agg['counters'].get('tsan.distinct_reports', 0) + len(seen)
+    # memcheck logs
+    for si, st in enumerate(stages):
+        if st.get('memcheck'):
+            reps, unatt = memcheck_reports(os.path.join(workdir, 's%d' % si))
+            seen = {}
+            for key, txt in reps:
+                seen.setdefault(key, []).append(txt)
+            for key, txts in seen.items():
+                agg['viols'].append(dict(ev='viol', case=-1, key=key, detail='%d memcheck report(s); first:\n%s' % (len(txts), txts[0][:3000]), _stage=st))
+            for nm, v in (('memcheck.reports', len(reps)), ('memcheck.distinct_reports', len(seen)), ('memcheck.reports_without_soplex_frame', unatt)):
+                agg['counters'][nm] = agg['counters'].get(nm, 0) + v
     # ---- verdict
     known = load_known()
     rp_dir = os.path.join(CACHE, 'replay', prop)
